@@ -62,8 +62,11 @@ def _child(rec):
             exc["orbital_window"] = window
         if rec.get("max_iter"):
             exc["max_iter"] = rec["max_iter"]  # iteration cap of the uniform-batch CIS Davidson (knob)
-        return {"method": rec["method"], "scf_eps": 1e-10, "scf_converger": [1], "excited_states": exc}
+        return {"method": rec["method"], "scf_eps": scf_eps, "scf_converger": [1], "excited_states": exc}
 
+    # the SCF threshold the CALLER writes down: tight by default; in the loose-threshold stratum an MD-style value that is
+    # looser than the excited-state tolerance (the library then has to tighten it itself)
+    scf_eps = rec.get("user_scf_eps") or 1e-10
     sp = settings()
     mol = Molecule(Constants(), sp, torch.as_tensor(xyz_np), species)
     mol.verbose = False
@@ -207,6 +210,19 @@ def _child(rec):
             r["cut_gap"] = float(om[len(e_i)] - om[len(e_i) - 1]) if len(e_i) < len(om) else float("inf")
             res.append(r)
         entry["res"] = res
+        if (rec.get("user_scf_eps") or (window is not None and len(out) > 0)) and homogeneous:
+            # the same geometry with a tightly converged ground state (new objects): the excitation energies are those of
+            # the CONVERGED orbitals, whatever SCF threshold the caller happened to write down
+            spt = settings()
+            spt["scf_eps"] = 1e-10
+            mt = Molecule(Constants(), spt, mol.coordinates.detach().clone(), species)
+            mt.verbose = False
+            try:
+                Electronic_Structure(spt)(mt)
+                k = min(E.shape[1], mt.cis_energies.shape[1], n_states)
+                entry["dE_tight"] = (E[:, :k] - mt.cis_energies.detach()[:, :k]).abs().amax(dim=1).tolist()
+            except Exception as e:  # noqa: BLE001
+                entry["dE_tight_exc"] = f"{type(e).__name__}: {str(e)[:120]}"
         out.append(entry)
     return out
 
@@ -244,6 +260,8 @@ def gen(rng, tier):
         rec["distort"] = 0.0
     elif u2 < 0.3 and len(batch) > 1:
         rec["first_perfect"] = True
+    if len(set(batch)) == 1 and "window" not in rec and rng.random() < 0.2:
+        rec["user_scf_eps"] = rng.choice([1e-4, 1e-5, 1e-6])
     ops = [{"op": "SOLVE", "start": "fresh"}]
     for _ in range(rng.randint(1, 5)):
         ops.append({"op": "MOVE", "sigma": rng.choice([0.005, 0.02, 0.05])})
@@ -302,6 +320,19 @@ def _execute(record, root):
             continue
         if any(e["scf_notconverged"]):
             continue
+        if e.get("dE_tight") is not None:
+            windowed_history = bool(record.get("window")) and k > 0
+            key = "solves_compared_with_new_objects_window_and_history" if windowed_history else "solves_with_loose_user_scf_threshold"
+            stats["probes"][key] = stats["probes"].get(key, 0) + 1
+            for m, dv in enumerate(e["dE_tight"]):
+                if not windowed_history:
+                    mx["dE_vs_tightly_converged_scf_over_tol"] = max(mx.get("dE_vs_tightly_converged_scf_over_tol", 0.0), dv / t)
+                if dv > tol["K_tight"] * t:
+                    if windowed_history:
+                        failures.append(core.fail("depends-on-molecule-history", f"{tag} orbital_window={record['window']}: molecule {m}: on a Molecule object that was solved before (at a neighbouring geometry) the excitation energies differ by {dv:.3e} eV from those of new objects at the same geometry", classify={"site": "orbital-window-on-reused-molecule"}))
+                    else:
+                        failures.append(core.fail("depends-on-user-scf-threshold", f"{tag} user scf_eps={record.get('user_scf_eps')}: molecule {m}: excitation energies differ by {dv:.3e} eV from those of the same geometry with a tightly converged ground state (bound {tol['K_tight']} x tolerance): they are not the eigenvalues of the matrix defined by the CONVERGED orbitals"))
+                    break
         if e["start"] != "fresh":
             stats["probes"]["start_" + e["start"]] = stats["probes"].get("start_" + e["start"], 0) + 1
         for m, r in enumerate(e["res"]):
